@@ -188,7 +188,11 @@ func (w *ReloadWorld) probe(rs ReqSpec) outcome {
 }
 
 func (w *ReloadWorld) addV(rule, loc, format string, a ...any) {
-	v := viol(rule, "C18", format, a...)
+	props := "C18"
+	if strings.HasPrefix(loc, "reloadfail/secret") {
+		props = "C18,C08" // secrets that cannot be loaded: authentication has to fail closed
+	}
+	v := viol(rule, props, format, a...)
 	v.Loc = loc
 	w.Res.Violations = append(w.Res.Violations, v)
 	w.Res.logf("  VIOLATION %s", v.String())
@@ -204,6 +208,16 @@ func badConfigText(spec *SysSpec, kind string) (string, bool) {
 		return good + fmt.Sprintf("\n%q {\n  pull { path \"/pull/dup\" }\n}\n", spec.Routes[0].Path), true
 	case "secret":
 		return good + "\n\"/needs-secret\" {\n  auth hmac \"file:/nonexistent/verif/secret\"\n  pull { path \"/pull/needs-secret\" }\n}\n", true
+	case "secret_version":
+		// a named secret version whose value cannot be loaded, referenced by a new route
+		if strings.Contains(good, "secrets {") {
+			return badConfigText(spec, "secret")
+		}
+		return "secrets {\n  secret \"V9\" {\n    value \"file:/nonexistent/verif/secret-version\"\n    valid_from \"2029-01-01T00:00:00Z\"\n  }\n}\n" + good +
+			"\n\"/needs-version\" {\n  auth hmac secret_ref \"V9\"\n  pull { path \"/pull/needs-version\" }\n}\n", true
+	case "secret_pull_token":
+		// a route-level pull token that cannot be loaded
+		return good + "\n\"/needs-token\" {\n  pull {\n    path \"/pull/needs-token\"\n    auth token \"file:/nonexistent/verif/pull-token\"\n  }\n}\n", true
 	case "restart":
 		return strings.Replace(good, "listen 127.0.0.1:0", "listen 127.0.0.9:0", 1), true
 	}
@@ -444,7 +458,7 @@ func GenReloadFailProgram(t *rapid.T) *Program {
 		spec.AdminTokens = []string{"admin-tok-old"}
 	}
 	ns := genChangedSpec(t, spec)
-	sys := reloadSys{Spec: spec, NewSpec: ns, Bad: rapid.SampledFrom([]string{"unreadable", "parse", "compile", "secret", "restart", "restart"}).Draw(t, "bad")}
+	sys := reloadSys{Spec: spec, NewSpec: ns, Bad: rapid.SampledFrom([]string{"unreadable", "parse", "compile", "secret", "secret_version", "secret_pull_token", "restart", "restart"}).Draw(t, "bad")}
 	sys.Probes = genProbes(t, spec, ns)
 	p.Sys, _ = json.Marshal(sys)
 	return p
@@ -544,9 +558,25 @@ func init() {
 		Prop: "C18", World: "reloadfail",
 		Gen: GenReloadFailProgram, Run: RunReloadFailProgram,
 		NonTrivial: func(p *Program, r *Result) bool { return r.Ops >= 3 },
-		Rule:       "failed reload (unreadable file, parse error, compile error, unloadable secret, restart-required change) on generated stateless configurations; a fixed probe set of requests must give identical outcomes (status, Allow, enqueued route/target set) before and after, and the original file must still reload; non-trivial = >=1 probe before and after; distinct = (fault kind) x config shapes",
+		Rule:       "failed reload (unreadable file, parse error, compile error, unloadable inline secret / named secret version / route pull token, restart-required change) on generated stateless configurations; a fixed probe set of requests must give identical outcomes (status, Allow, enqueued route/target set) before and after, and the original file must still reload; non-trivial = >=1 probe before and after; distinct = (fault kind) x config shapes",
 		RealStub:   sysRealStub,
 		Quick:      2500, Thorough: 60000,
+	})
+	Register(&CheckSpec{
+		Prop: "C08", World: "reloadfail",
+		Gen: func(t *rapid.T) *Program {
+			p := GenReloadFailProgram(t)
+			var sys reloadSys
+			if json.Unmarshal(p.Sys, &sys) == nil {
+				sys.Bad = rapid.SampledFrom([]string{"secret", "secret_version", "secret_pull_token"}).Draw(t, "bad.secret")
+				p.Sys, _ = json.Marshal(sys)
+			}
+			return p
+		}, Run: RunReloadFailProgram,
+		NonTrivial: func(p *Program, r *Result) bool { return r.Ops >= 3 },
+		Rule:       "fail-closed under secret-loading faults: a reload whose inline secret, named secret version or route pull token cannot be loaded must be refused, and the probe requests (signed, unsigned, with and without credentials) and the Pull/Admin API authorisation behave exactly as before; non-trivial = >=1 probe before and after",
+		RealStub:   sysRealStub,
+		Quick:      1200, Thorough: 30000,
 	})
 	Register(&CheckSpec{
 		Prop: "C18", World: "atomic",
